@@ -160,11 +160,12 @@ class Module:
 
 
 class Repo:
-    def __init__(self, root: str = "/repo", overrides: Optional[Dict[str, str]] = None):
+    def __init__(self, root: str = "/repo", overrides: Optional[Dict[str, str]] = None, view: str = "live"):
         """``overrides`` maps paths relative to the repo root to replacement source text
         (used by the self-test to analyse variants without touching the disk)."""
         self.root = os.path.abspath(root)
         self.overrides = dict(overrides or {})
+        self.view = view
         self.pkg_dir = os.path.join(self.root, PKG_DIR)
         if not os.path.isdir(self.pkg_dir):
             raise AnchorMissing(f"package directory {self.pkg_dir} not found")
@@ -300,6 +301,13 @@ class Repo:
                         self.parse_errors.append(f"{path}: reference comparison failed: {type(e).__name__}: {e}")
                     if subs:
                         self.equivalent_to_reference.setdefault(name, []).extend(subs)
+                    if self.view == "canonical":
+                        from .reference import canonical_view
+
+                        try:
+                            canonical_view(tree, name, is_pkg)
+                        except Exception as e:
+                            self.parse_errors.append(f"{path}: canonical view failed: {type(e).__name__}: {e}")
                 self.modules[name] = Module(
                     name=name,
                     path=path,
